@@ -23,6 +23,7 @@ class Ctx:
         self.fp = fp
         self.fps = []  # fingerprint at each choice point (when fp is set)
         self.expect = expect  # optional list of (name, n) to verify while replaying
+        self.labels = []      # (choice point name, repr of the chosen option): a replay format that survives a grown alphabet
 
     def choose(self, name: str, options):
         i = len(self.trace)
@@ -37,6 +38,7 @@ class Ctx:
         if self.fp is not None:
             self.fps.append(self.fp())
         self.trace.append((name, n, c))
+        self.labels.append((name, repr(options[c])))
         return options[c]
 
     @property
@@ -45,6 +47,31 @@ class Ctx:
 
     def shape(self):
         return [(n, k) for n, k, _ in self.trace]
+
+
+class LabelCtx(Ctx):
+    """Replays a recording by NAMES: at a choice point whose name is in the recording the recorded option is taken
+    (looked up by its repr among the options offered now); choice points the recording does not know - added to the
+    environment model later - take the default.  Recordings stay valid when alphabets grow or new choice points appear."""
+
+    def __init__(self, labels):
+        super().__init__(())
+        self.want = {}
+        for name, lab in labels:
+            self.want.setdefault(name, []).append(lab)
+
+    def choose(self, name, options):
+        c = 0
+        q = self.want.get(name)
+        if q:
+            lab = q.pop(0)
+            reprs = [repr(o) for o in options]
+            if lab not in reprs:
+                raise ReplayDivergence(f'choice point {name}: recorded option {lab} is not offered any more ({reprs[:6]}...)')
+            c = reprs.index(lab)
+        self.trace.append((name, len(options), c))
+        self.labels.append((name, repr(options[c])))
+        return options[c]
 
 
 class Stats:
